@@ -664,9 +664,14 @@ func cmdRun(args []string) int {
 			fmt.Printf("KNOWN-FINDING: property=%s %s\n", id, k.Text)
 		}
 	}
-	if infra {
+	if infra && len(viol) == 0 {
 		fmt.Println("vcheck: machinery trouble, no verdict (exit 2)")
 		return 2
+	}
+	if infra {
+		// some worker crashed or timed out, but another one found a replayable
+		// violation: that stands on its own
+		fmt.Println("vcheck: note: at least one worker ended abnormally (see stderr); the violations below come from the others")
 	}
 	if len(viol) > 0 {
 		for _, v := range viol {
